@@ -749,6 +749,54 @@ pub fn mutate(base: &Program, rule: Rule, k: usize) -> Option<(Program, String)>
                 m.mark("an uncalled private fn is added");
             }
         }
+        Rule::RefutableLet | Rule::RefutableFor | Rule::RefutableJoin => {
+            // a menu of refutable patterns that do not depend on the base program, bound by a new
+            // first statement of the first fn: literal / range / bool inside a single-variant tuple
+            // enum, a struct, a multi-variant enum, nested in tuples
+            let wq = |a: Pat, b: Pat| Pat::EnumTup("Wq".into(), "W".into(), vec![a, b]);
+            let wq_val = || ex(ExprKind::EnumLit("Wq".into(), "W".into(), Some(vec![lit_u8(1), lit_bool(true)])));
+            let sq_val = || ex(ExprKind::StructLit("Sq".into(), vec![("f".into(), lit_u8(1)), ("g".into(), lit_bool(true))]));
+            let eq_val = || ex(ExprKind::EnumLit("Mq".into(), "A".into(), None));
+            let lit0 = || Pat::Int(0, Some(IntTy::U8));
+            let menu: Vec<(&str, Pat, Expr)> = vec![
+                ("Wq::W(0u8, f)", wq(lit0(), pvar("f_q")), wq_val()),
+                ("Wq::W(n, true)", wq(pvar("n_q"), Pat::Bool(true)), wq_val()),
+                ("Wq::W(0u8..=9u8, f)", wq(Pat::Range(0, 9, true, Some(IntTy::U8)), pvar("f_q")), wq_val()),
+                ("(Wq::W(n, true), m)", Pat::Tup(vec![wq(pvar("n_q"), Pat::Bool(true)), pvar("m_q")]), tup(vec![wq_val(), lit_u8(2)])),
+                ("Sq {f: 0u8, g}", Pat::Struct("Sq".into(), vec![("f".into(), lit0()), ("g".into(), pvar("g_q"))], false), sq_val()),
+                ("Sq {g: true, ..}", Pat::Struct("Sq".into(), vec![("g".into(), Pat::Bool(true))], true), sq_val()),
+                ("Mq::A", Pat::EnumUnit("Mq".into(), "A".into()), eq_val()),
+                ("(m, Mq::A)", Pat::Tup(vec![pvar("m_q"), Pat::EnumUnit("Mq".into(), "A".into())]), tup(vec![lit_u8(2), eq_val()])),
+                ("(m, (true, k))", Pat::Tup(vec![pvar("m_q"), Pat::Tup(vec![Pat::Bool(true), pvar("k_q")])]), tup(vec![lit_u8(2), tup(vec![lit_bool(true), lit_u8(3)])])),
+                ("(Wq::W(n, f), 0u8)", Pat::Tup(vec![wq(pvar("n_q"), pvar("f_q")), lit0()]), tup(vec![wq_val(), lit_u8(2)])),
+            ];
+            for (name, pat, val) in menu {
+                if m.hit() {
+                    p.defs.add_enum("Wq", vec![("W", Some(vec![Ty::u8(), Ty::Bool]))]);
+                    p.defs.add_struct("Sq", vec![("f", Ty::u8()), ("g", Ty::Bool)]);
+                    p.defs.add_enum("Mq", vec![("A", None), ("B", None)]);
+                    // (struct literals are not allowed in the iterable position: the tables are bound first)
+                    let stmts = match rule {
+                        Rule::RefutableLet => vec![let_pat(pat, val)],
+                        Rule::RefutableFor => vec![let_("src_q", arr(vec![val.clone(), val])), for_(pat, var("src_q"), vec![])],
+                        _ => {
+                            // for-join: the refutable pattern is the payload of the second table
+                            let row = |v: Expr| tup(vec![lit_u8(1), v]);
+                            vec![
+                                let_("ta_q", arr(vec![tup(vec![lit_u8(1), lit_u8(5)])])),
+                                let_("tb_q", arr(vec![row(val)])),
+                                st(StmtKind::ForJoin(Pat::Tup(vec![pvar("ja_q"), Pat::Tup(vec![pvar("jk_q"), pat])]), var("ta_q"), var("tb_q"), vec![])),
+                            ]
+                        }
+                    };
+                    for (k, stmt) in stmts.into_iter().enumerate() {
+                        p.fns[0].body.insert(k, stmt);
+                    }
+                    m.mark(format!("new first statement binds the refutable pattern {name}"));
+                    break;
+                }
+            }
+        }
         Rule::RecursiveType => {
             if m.hit() {
                 p.defs.add_struct("Rq", vec![("r", Ty::Struct("Rq".into())), ("v", Ty::u8())]);
